@@ -87,6 +87,27 @@ pub fn run(tier: Tier, seed: u64) -> i32 {
         });
         rep.add(fb);
     }
+    // the two reserved leading entries on volumes the library formats itself, for every media descriptor a caller may
+    // ask for: entry 0 = the descriptor in the low byte, all other bits set; entry 1 = the end-of-chain pattern; in every
+    // copy, before and after a session that allocates and frees
+    if !rep.failed() {
+        let medias = [0xF0u8, 0xF8, 0xF9, 0xFA, 0xFB, 0xFC, 0xFD, 0xFE, 0xFF];
+        let mut b = run::run_indexed("reserved_entries_for_every_media_descriptor", (medias.len() * 3 * 2) as u64, |i, blk| {
+            let i = i as usize;
+            let media = medias[i / 6];
+            let (fat, sectors, bits) = [(fatfs::FatType::Fat12, 2000u32, 12u32), (fatfs::FatType::Fat16, 9000, 16), (fatfs::FatType::Fat32, 70_000, 32)][(i / 2) % 3];
+            let fats = 1 + (i % 2) as u8;
+            let mut out = run::CaseOut::default();
+            out.hash = run::hash_str(&format!("media|{}", i));
+            out.nontrivial = media != 0xF8;
+            out.violation = reserved_entries_case(media, fat, sectors, bits, fats).err();
+            let cj = serde_json::json!({"media": media, "width": bits, "sectors": sectors, "fats": fats});
+            blk.record(&out, || cj.clone());
+            out.violation.map(|m| run::Failure { message: m, case: cj, kind: "media".into() })
+        });
+        b.exhaustive = true;
+        rep.add(b);
+    }
     if !rep.failed() {
         rep.add(hist::random_block(&hp, "random_histories", seed, tier.pick(hp.quick_cases, hp.thorough_cases)));
     }
@@ -96,4 +117,51 @@ pub fn run(tier: Tier, seed: u64) -> i32 {
         }
     }
     rep.finish()
+}
+
+pub fn reserved_entries_case(media: u8, fat: fatfs::FatType, sectors: u32, bits: u32, fats: u8) -> Result<(), String> {
+    use crate::refdec;
+    use crate::session::{Clock, MountOpts, Session};
+    use fatfs::Write;
+    let dev = crate::dev::MemDev::new(crate::dev::Store::sparse(sectors as u64 * 512, 0xD1));
+    let mut dh = dev.handle();
+    fatfs::format_volume(&mut dh, fatfs::FormatVolumeOptions::new().total_sectors(sectors).bytes_per_cluster(512).fat_type(fat).fats(fats).media(media)).map_err(|e| format!("HARNESS: format with media {:#04x}: {:?}", media, e))?;
+    let g = dev.with_store(|st| refdec::Geom::parse(st)).map_err(|e| format!("HARNESS: {}", e))?;
+    let want0: u32 = match bits {
+        12 => 0xF00 | media as u32,
+        16 => 0xFF00 | media as u32,
+        _ => 0x0FFF_FF00 | media as u32,
+    };
+    let check = |when: &str| -> Result<(), String> {
+        for c in 0..g.nfats {
+            let (e0, e1) = dev.with_store(|st| (g.fat_raw(st, c, 0), g.fat_raw(st, c, 1)));
+            let (e0m, e1m) = if bits == 32 { (e0 & 0x0FFF_FFFF, e1 & 0x0FFF_FFFF) } else { (e0, e1) };
+            if e0m != want0 {
+                return Err(format!("{}: entry 0 of FAT copy {} is {:#x} on a FAT{} volume formatted with media descriptor {:#04x} (expected {:#x})", when, c, e0, bits, media, want0));
+            }
+            let eoc_min = match bits {
+                12 => 0xFF8,
+                16 => 0xFFF8,
+                _ => 0x0FFF_FFF8,
+            };
+            // (FAT16/32 keep the clean-shutdown and no-error flags in the two top bits of entry 1: set on a fresh volume)
+            if e1m < eoc_min {
+                return Err(format!("{}: entry 1 of FAT copy {} is {:#x}: not an end-of-chain value", when, c, e1));
+            }
+        }
+        Ok(())
+    };
+    check("after format")?;
+    let clock = Clock::new(600_000_000_000);
+    let s = Session::mount(&dev, &clock, &MountOpts::default()).map_err(|e| format!("mount of a volume formatted with media {:#04x}: {:?}", media, e))?;
+    {
+        let r = s.root();
+        let mut f = r.create_file("a file.bin").map_err(|e| format!("{:?}", e))?;
+        f.write_all(&vec![3u8; 1500]).map_err(|e| format!("{:?}", e))?;
+        drop(f);
+        r.create_dir("d").map(|_| ()).map_err(|e| format!("{:?}", e))?;
+        r.remove("a file.bin").map_err(|e| format!("{:?}", e))?;
+    }
+    s.unmount().map_err(|e| format!("unmount: {:?}", e))?;
+    check("after a session that allocated and freed")
 }
